@@ -123,14 +123,21 @@ def decodeSpec (num : Nat) (toks : List String) : Option Property := do
     | "ts" => pure (Schema.timestamp r lr)
     | "f32" => pure (Schema.float false lr)
     | "f64" => pure (Schema.float true lr)
-    | "date" => pure (Schema.date lr)
-    | "dec" => pure (Schema.decimal lr)
+    | "date" => do
+      let dmn ← optStr (m.get "dmin"); let dmx ← optStr (m.get "dmax")
+      let emn ← optBool (m.get "emin"); let emx ← optBool (m.get "emax")
+      pure (Schema.date (if r then some { minimum := dmn, maximum := dmx, exclusiveMinimum := emn, exclusiveMaximum := emx } else none) lr)
+    | "dec" => do
+      let dmn ← optStr (m.get "dmin"); let dmx ← optStr (m.get "dmax")
+      let emn ← optBool (m.get "emin"); let emx ← optBool (m.get "emax")
+      pure (Schema.decimal (if r then some { minimum := dmn, maximum := dmx, exclusiveMinimum := emn, exclusiveMaximum := emx } else none) lr)
     | "any" => pure (Schema.any false [] lr)
     | _ => none
   let schema : FieldSchema ←
     if m.get "arr" == "1" then do
       let amin ← optNat (m.get "amin"); let amax ← optNat (m.get "amax"); let auniq ← optBool (m.get "auniq")
-      pure (FieldSchema.array item (if m.get "ar" == "1" then some { minItems := amin, maxItems := amax, uniqueItems := auniq } else none) none)
+      let asf ← optStr (m.get "asf")
+      pure (FieldSchema.array item (if m.get "ar" == "1" then some { minItems := amin, maxItems := amax, uniqueItems := auniq } else none) asf)
     else pure (FieldSchema.single item)
   pure { name := name, number := num, required := m.get "req" == "1", explicitlyOptional := m.get "opt" == "1",
          description := desc.getD "", schema := schema }
@@ -224,19 +231,60 @@ structure SmallRe where
   ranges : List (Char × Char)
   min : Nat
   max : Option Nat
-  deriving Repr
+  deriving Repr, DecidableEq
 
 def reMeta : List Char := "\\.+*?()|[]{}^$".toList
 
-partial def parseRanges : List Char → List (Char × Char) → Option (List (Char × Char) × List Char)
-  | [], _ => none
-  | ']' :: rest, acc => if acc.isEmpty then none else some (acc.reverse, rest)
-  | c :: '-' :: d :: rest, acc =>
+/-- `fuel` bounds the recursion (the input length suffices) -/
+def parseRangesAux : Nat → List Char → List (Char × Char) → Option (List (Char × Char) × List Char)
+  | 0, _, _ => none
+  | _ + 1, [], _ => none
+  | _ + 1, ']' :: rest, acc => if acc.isEmpty then none else some (acc.reverse, rest)
+  | fuel + 1, c :: '-' :: d :: rest, acc =>
     if c == '\\' || c == '^' || c == '[' then none
-    else if d == ']' then parseRanges ('-' :: d :: rest) ((c, c) :: acc)
-    else parseRanges rest ((c, d) :: acc)
+    else if d == ']' then parseRangesAux fuel ('-' :: d :: rest) ((c, c) :: acc)
+    else parseRangesAux fuel rest ((c, d) :: acc)
+  | fuel + 1, c :: rest, acc =>
+    if c == '\\' || c == '^' || c == '[' then none else parseRangesAux fuel rest ((c, c) :: acc)
+
+def parseRanges (cs : List Char) (acc : List (Char × Char)) : Option (List (Char × Char) × List Char) :=
+  parseRangesAux (cs.length + 1) cs acc
+
+def digitVal (c : Char) : Option Nat :=
+  if c.toNat ≥ 48 && c.toNat ≤ 57 then some (c.toNat - 48) else none
+
+def digitsToNat : List Char → Option Nat → Option Nat
+  | [], acc => acc
   | c :: rest, acc =>
-    if c == '\\' || c == '^' || c == '[' then none else parseRanges rest ((c, c) :: acc)
+    match digitVal c with
+    | none => none
+    | some d => digitsToNat rest (some ((acc.getD 0) * 10 + d))
+
+/-- split at the first comma -/
+def splitComma : List Char → List Char × Option (List Char)
+  | [] => ([], none)
+  | ',' :: rest => ([], some rest)
+  | c :: rest => let (a, b) := splitComma rest; (c :: a, b)
+
+/-- quantifier after a bracket class: nothing, `+`, `*`, `{n}`, `{n,m}` → (min, max) -/
+def parseQuant (q : List Char) : Option (Nat × Option Nat) :=
+  match q with
+  | [] => some (1, some 1)
+  | ['+'] => some (1, none)
+  | ['*'] => some (0, none)
+  | '{' :: rest =>
+    match rest.reverse with
+    | '}' :: r =>
+      let (a, b) := splitComma r.reverse
+      match digitsToNat a none, b with
+      | some n, none => some (n, some n)
+      | some n, some b' =>
+        (match digitsToNat b' none with
+         | some k => if k < n then none else some (n, some k)
+         | none => none)
+      | none, _ => none
+    | _ => none
+  | _ => none
 
 def parseSmallRe (p : String) : Option SmallRe :=
   let cs := p.toList
@@ -247,19 +295,9 @@ def parseSmallRe (p : String) : Option SmallRe :=
     match parseRanges rest [] with
     | none => none
     | some (ranges, q) =>
-      let qs := String.ofList q
-      if qs == "" then some { anchorL := aL, anchorR := aR, isClass := true, lit := [], ranges := ranges, min := 1, max := some 1 }
-      else if qs == "+" then some { anchorL := aL, anchorR := aR, isClass := true, lit := [], ranges := ranges, min := 1, max := none }
-      else if qs == "*" then some { anchorL := aL, anchorR := aR, isClass := true, lit := [], ranges := ranges, min := 0, max := none }
-      else if qs.startsWith "{" && qs.endsWith "}" then
-        match (((qs.drop 1).dropRight 1).toString).splitOn "," with
-        | [a] => a.toNat?.map fun n => { anchorL := aL, anchorR := aR, isClass := true, lit := [], ranges := ranges, min := n, max := some n }
-        | [a, b] =>
-          match a.toNat?, b.toNat? with
-          | some n, some k => if k < n then none else some { anchorL := aL, anchorR := aR, isClass := true, lit := [], ranges := ranges, min := n, max := some k }
-          | _, _ => none
-        | _ => none
-      else none
+      match parseQuant q with
+      | some (mn, mx) => some { anchorL := aL, anchorR := aR, isClass := true, lit := [], ranges := ranges, min := mn, max := mx }
+      | none => none
   | _ =>
     if cs.any (fun c => reMeta.contains c) then none
     else some { anchorL := aL, anchorR := aR, isClass := false, lit := cs, ranges := [], min := 0, max := none }
@@ -381,8 +419,14 @@ def flatOfSchema : Schema → FlatRow
   | .object ref flatten _ => { kind := "obj", ref := hexStr ref, flat := b01 flatten }
   | .oneof ref _ lr => { kind := "oneof", ref := hexStr ref, lr := showLR lr }
   | .timestamp _ lr => { kind := "ts", lr := showLR lr }
-  | .date lr => { kind := "date", lr := showLR lr }
-  | .decimal lr => { kind := "dec", lr := showLR lr }
+  | .date rules lr =>
+    { kind := "date", lr := showLR lr,
+      min := showOptHex (rules.bind (·.minimum)), max := showOptHex (rules.bind (·.maximum)),
+      emin := showExcl (rules.bind (·.exclusiveMinimum)), emax := showExcl (rules.bind (·.exclusiveMaximum)) }
+  | .decimal rules lr =>
+    { kind := "dec", lr := showLR lr,
+      min := showOptHex (rules.bind (·.minimum)), max := showOptHex (rules.bind (·.maximum)),
+      emin := showExcl (rules.bind (·.exclusiveMinimum)), emax := showExcl (rules.bind (·.exclusiveMaximum)) }
   | .any od types lr => { kind := "any", od := b01 od, types := showNames types, lr := showLR lr }
 
 def showFlat (p : Property) : String :=
